@@ -187,7 +187,7 @@ class GenMT:
             out = 'unp'
         elif x < 0.24:
             out = 'spf'
-        elif x < 0.27 and self.regime == 'wild':
+        elif x < 0.27:
             out = 'req'          # the request cannot be unpickled by the next tier
         return {'c': c, 'mode': None if rng.random() < self.free_p else rng.randrange(self.nw),
                 'db': db, 's': cur[0], 'r': cur[1], 'g': self.glob[c], 'cf': cur[2], 'y': self.sys[c],
@@ -454,7 +454,7 @@ def local_witness():
         return {'c': c, 'mode': 0, 'db': 0, 's': s, 'r': r, 'g': g, 'cf': cf, 'y': y, 'out': out,
                 'fronts': [True]}
     return spec, [L(1, 8, 16, 28, 20, 36), L(2, 12, 16, 28, 20, 36, 'unp'), L(1, 8, 60, 68, 64, 72)], \
-        {'mt-pool-eviction-not-flushed-stale-belief', 'mt-pool-eviction-not-flushed-wrong-state-used'}
+        set()      # repaired by a325b39 (was: mt-pool-eviction-not-flushed-stale-belief / -wrong-state-used)
 
 
 def local_witness_drop():
@@ -468,7 +468,7 @@ def local_witness_drop():
     spec = {'nworkers': 1, 'cache_size': 2, 'tokens': tokens, 'regime': 'witness', 'lmt': True}
     q = {'c': 1, 'mode': 0, 'db': 0, 's': 8, 'r': 16, 'g': 28, 'cf': 20, 'y': 36, 'out': 'ok', 'fronts': [True]}
     return spec, [dict(q), {'op': 'drop', 'c': 1}, dict(q), dict(q)], \
-        {'mt-pool-eviction-not-flushed-stale-belief'}
+        set()      # repaired by a325b39 (was: mt-pool-eviction-not-flushed-stale-belief)
 
 
 # -------------------------------------------------------------- fixed streams
@@ -490,8 +490,7 @@ def witness_specs():
          [Q(0, 0, 8, 28), Q(1, 0, 44, 28), Q(1, 1, 48, 28), Q(0, 0, 44, 28), Q(0, 1, 48, 28)], set()),
         ('status2_record', dict(base), [Q(0, 0, 8, 28), Q(0, 0, 44, 28, 'unp')],
          {'unserializable-result-stale-record'}),
-        ('lost_request', dict(base), [Q(0, 0, 44, 28, 'req'), Q(0, 0, 44, 28)],
-         {'unprocessed-request-belief-ahead', 'unprocessed-request-wrong-state-used'}),
+        ('lost_request', dict(base), [Q(0, 0, 44, 28, 'req'), Q(0, 0, 44, 28)], set()),     # repaired: 3499a3b
         ('failed_sync', dict(base), [Q(0, 0, 44, 34), Q(0, 0, 8, 52)],
          {'remote-failed-sync-stale-belief', 'remote-failed-sync-wrong-state-used'}),
     ]
